@@ -83,3 +83,5 @@ V('C14', 'compound-components-as-regular', S, 'edb.server.compiler.sertypes._des
   '[_describe_object_type(c, ctx=ctx) for c in components]', '[_describe_regular_object_type(c, ctx=ctx) for c in components]', 'C14.R5', 'calls=_describe_regular_object_type')
 V('C14', 'neg-flag-test-restructured', S, 'edb.server.compiler.sertypes._describe_object_shape',
   "        if (implicit_id and el_name == 'id') or el_name == '__tid__':", "        if el_name == '__tid__' or (el_name == 'id' and implicit_id):", None)
+V('C14', 'string-length-in-characters', S, 'edb.server.compiler.sertypes._string_packer',
+  "    s_bytes = s.encode('utf-8')\n    return _uint32_packer(len(s_bytes)) + s_bytes", "    return _uint32_packer(len(s)) + s.encode('utf-8')", 'C14.R6', '_string_packer:len-prefix=payload')
